@@ -648,3 +648,70 @@ Section Inline.
     intros x y _ Hy. apply inline_refines; assumption.
   Qed.
 End Inline.
+
+(* ---------------------------------------------------------------- the record is satisfiable (sanity witness)
+   F(x) = (Neg(x), x);  main: (y1, y2) = F(a).  After inlining: t' = Neg(a), i' = Identity(a); y1 := t', y2 := i'.
+   ids: a = 1, y1 = 10, y2 = 11, x = 20, t = 21, t' = 30, i' = 31. *)
+Module InlineWitness.
+  Definition OP_F : opid := ([], [70], []).
+  Definition OP_Neg : opid := ([], [78], []).
+  Definition negn := mkNode OP_Neg [] [Some 20] [21].
+  Definition negn' := mkNode OP_Neg [] [Some 1] [30].
+  Definition idn := mkNode OP_Identity [] [Some 1] [31].
+  Definition c := mkNode OP_F [] [Some 1] [10; 11].
+  Definition fn := mkFunc OP_F (mkGraph [20] [] [negn] [21; 20]) [].
+  Definition funcs (op : opid) : option func := if opid_eqb op OP_F then Some fn else None.
+  Definition s := mkSem (fun v => if N.eqb v 10 then Some (c, O) else if N.eqb v 11 then Some (c, 1%nat)
+                                  else if N.eqb v 21 then Some (negn, O) else None)
+                        (fun _ => None) funcs (fun _ => None).
+  Definition s' := mkSem (fun v => if N.eqb v 21 then Some (negn, O) else if N.eqb v 30 then Some (negn', O)
+                                   else if N.eqb v 31 then Some (idn, O) else None)
+                         (fun _ => None) funcs (fun _ => None).
+  Definition formal (v : vid) : Prop := v = 1 \/ v = 20.
+  Definition Fresh (v : vid) : Prop := v = 30 \/ v = 31.
+  Definition cl (v : vid) : option (option vid) :=
+    if N.eqb v 20 then Some (Some 1) else if N.eqb v 21 then Some (Some 30) else None.
+  Definition gm (g : gid) : option gid := None.
+  Definition tau (v : vid) : vid := if N.eqb v 10 then 30 else if N.eqb v 11 then 31 else v.
+
+  Ltac cases v := repeat match goal with
+                         | H : context [N.eqb v ?b] |- _ => destruct (N.eqb_spec v b); [subst v|]
+                         end.
+
+  Lemma witness : InlineSim s s' formal Fresh c fn cl gm tau.
+  Proof.
+    constructor.
+    - reflexivity.
+    - reflexivity.
+    - reflexivity.
+    - reflexivity.
+    - intros a [H|[]]. injection H as <-. reflexivity.
+    - intros v [->| ->]; reflexivity.
+    - intros v [->| ->] [H|H]; discriminate.
+    - intros v t H. discriminate.
+    - intros v n i _ H. simpl in H. cases v.
+      + injection H as <- <-. right. split; [reflexivity|]. intros o Ho. injection Ho as <-. left. reflexivity.
+      + injection H as <- <-. right. split; [reflexivity|]. intros o Ho. injection Ho as <-. right.
+        exists 1, idn. repeat split; try reflexivity. right. reflexivity.
+      + injection H as <- <-. left. split; [reflexivity|]. split; [reflexivity|]. exists negn. repeat split; reflexivity.
+      + discriminate.
+    - intros v n i fn2 H Hf. simpl in H. cases v; try discriminate; injection H as <- <-; try reflexivity.
+    - intros g gr H. discriminate.
+    - intros op fn2 H. simpl in H. unfold funcs in H. destruct (opid_eqb op OP_F) eqn:E; [|discriminate].
+      injection H as <-. exists fn. simpl. unfold funcs. rewrite E. repeat split; try reflexivity.
+      constructor; [right; reflexivity | constructor].
+    - intros op H. simpl in *. exact H.
+    - intros x [<-|[]]. reflexivity.
+    - intros u H. unfold cl in H. cases u; discriminate.
+    - intros u w H. unfold cl in H. cases u; try discriminate.
+      + left. left. reflexivity.
+      + injection H as <-. right. split; [left; reflexivity|]. split; [reflexivity|]. intros _. simpl.
+        exists negn'. split; [reflexivity|]. constructor; try reflexivity.
+        * constructor; [reflexivity | constructor].
+        * constructor.
+    - intros u u' w Hf H H'. unfold cl in H, H'. cases u; cases u'; try discriminate; try reflexivity.
+      + injection H as <-. destruct Hf; discriminate.
+      + injection H as <-. destruct Hf; discriminate.
+    - intros g g' gr H. discriminate.
+  Qed.
+End InlineWitness.
